@@ -363,14 +363,25 @@ func c13Exec(ctx *core.Ctx, c c13Case) {
 	if len(finals) == n || deadlock == "" {
 		// probe that the connection is in command mode (unless a panic closed it)
 		p.SendStr("NOOP\r\n")
-		r, err := p.ReadReply()
-		if err != nil {
-			closedByServer = isEOF(err)
-		} else {
-			all = append(all, r)
-			if r.Code != 250 && !(c.Panic != "" && r.Code == 421) {
-				finals = append(finals, r) // an extra reply where NOOP's 250 was expected
+		for {
+			r, err := p.ReadReply()
+			if err != nil {
+				if isWatchdog(err) && len(finals) == n {
+					// every final reply was sent, yet the command loop does not come back
+					deadlock = c13Deadlock(rig, p)
+					if deadlock == "" {
+						continue
+					}
+					break
+				}
+				closedByServer = isEOF(err)
+			} else {
+				all = append(all, r)
+				if r.Code != 250 && !(c.Panic != "" && r.Code == 421) {
+					finals = append(finals, r) // an extra reply where NOOP's 250 was expected
+				}
 			}
+			break
 		}
 	}
 	var finals2 []wire.Reply
